@@ -52,6 +52,9 @@ class MyList(list):
     """A list subclass: a non-collection leaf for dask.compute (it is not traversed)."""
 
 
+GC_EACH_RUN = True  # see sim/worker.run_tape
+
+
 def tier_cfg(tier):
     return {"maxdepth": 3}
 
